@@ -58,6 +58,12 @@ def run_c12(ctx):
         total_pairs += len(seqs)
         scs = [{'mode': 'seq', 'cfg': cfg, 'seq': s} for s in seqs]
         ctx.run_and_validate(DRIVER, COMP, TRACE, scs, 'cover_' + name, known_match=known_match)
+        if name == 'RN':
+            # the same cover with an explicit poll_interval of 10 ms handed to acquire() / acquire_ctx() (the
+            # reference gets it through the Config event): the time bounds scale with it
+            cfg10 = dict(cfg, poll=10)
+            scs = [{'mode': 'seq', 'cfg': cfg10, 'seq': s} for s in seqs]
+            ctx.run_and_validate(DRIVER, COMP, TRACE, scs, 'cover_RN_poll10', known_match=known_match)
         # random longer behaviours of the reference model (TLC simulation)
         n = 400 if ctx.tier == 'quick' else 6000
         out, dt, rc = tlc.run_tlc(COMP, 'MC_LockSeq', 'Sim_%s.cfg' % name, workers=1, timeout=600,
